@@ -31,6 +31,7 @@ def Refined : Op → Bool
   | .just => true
   | .fin => true
   | .pinq => true
+  | .nodes => true
   | _ => false
 
 /-- `Search` operations -/
